@@ -1,5 +1,6 @@
 """C14 - nice() only widens a domain, by < 2 tick steps, to round end points."""
 import math
+from fractions import Fraction
 from datetime import datetime, timedelta
 
 from mc import cal, lingrid, timegrid
@@ -59,13 +60,21 @@ def judge_linear(a, b, m, acc=None):
         return None
     step = (tk[-1] - tk[0]) / (len(tk) - 1)
     mag = max(abs(nlo), abs(nhi))
-    tol = 1e-6 * step + 8 * EPS * mag
-    if lo - nlo >= 2 * step - tol or nhi - hi >= 2 * step - tol:
-        return "C14:lin-too-far", "%s: moved %r / %r with tick step %r" % (where, lo - nlo, nhi - hi, step)
+    # the tick step is 1, 2 or 5 x 10^k (C13): use that exact value, the measured mean gap carries float error
+    k = math.floor(math.log10(step) + 1e-9)
+    lead = min((1, 2, 5, 10), key=lambda c: abs(step / 10 ** k - c))
+    stepx = Fraction(lead) * Fraction(10) ** k
+    if abs(Fraction(step) - stepx) > Fraction(1, 10 ** 6) * stepx:
+        if acc is not None:
+            acc.counters["linear_step_not_125"] += 1
+        stepx = Fraction(step)
+    tol = Fraction(1, 10 ** 6) * stepx + Fraction(8 * EPS * mag)
+    if Fraction(lo) - Fraction(nlo) >= 2 * stepx - tol or Fraction(nhi) - Fraction(hi) >= 2 * stepx - tol:
+        return "C14:lin-too-far", "%s: moved %r / %r with tick step %r" % (where, lo - nlo, nhi - hi, float(stepx))
     for v in (nlo, nhi):
-        q = v / (step / 10)
-        if abs(q - round(q)) * (step / 10) > tol:
-            return "C14:lin-not-round", "%s: end %r is not a multiple of a tenth of the step %r" % (where, v, step)
+        q = Fraction(v) / (stepx / 10)
+        if abs(q - round(q)) * (stepx / 10) > tol:
+            return "C14:lin-not-round", "%s: end %r is not a multiple of a tenth of the step %r" % (where, v, float(stepx))
     return None
 
 
